@@ -783,6 +783,12 @@ class Fn:
                 toks = " ".join(str(t[1]) for t in s[3][1][0][1][2])
                 if not all(re.search(r"\b%s\b" % re.escape(nm), toks) for nm in names):
                     raise Unsupported("a printing loop does not print every component of its element")
+                fmt0 = s[3][1][0][1][2][0][1] if s[3][1][0][1][2] and s[3][1][0][1][2][0][0] == "str" else ""
+                for key, tag in self.spec.get("print_tags", []):
+                    if key in fmt0:
+                        return "let %s := %s ++ map %s %s in %s" % (pr, pr, tag, self.ex(s[2], env), after(env))
+                if self.spec.get("print_tags"):
+                    raise Unsupported("a printing loop with an unknown line format %s" % fmt0)
                 return "let %s := %s ++ %s in %s" % (pr, pr, self.ex(s[2], env), after(env))
             return after(env)
         if k == "let" and s[1][0] == "pbind" and s[1][1] in self.spec.get("print_only_lets", ()):
@@ -1833,6 +1839,34 @@ def functions():
     };
 }"""
 
+    def t_print_plan():
+        src = read("src/bin/copia/incremental.rs")
+        spec = dict(signature=[("plan", "SyncPlan"), ("dry_run", "bool")], prints_ignored=True, printed_var="printed",
+                    print_tags=[("send ", "PSend"), ("delete ", "PDelete")],
+                    fields={("SyncPlan", "transfer"): ("(transfer {0})", "Vec<PathBuf>"), ("SyncPlan", "delete"): ("(sp_delete {0})", "Vec<PathBuf>")},
+                    prologue="let printed := [] in ")
+        params, ret, body = R.find_fn(src, "print_plan", None)
+        if [(n, norm_type(t_)) for n, t_ in params] != spec["signature"]:
+            raise Unsupported("signature of print_plan is %s" % params)
+        fn = Fn(spec)
+        text = spec["prologue"] + fn.block(body, {"plan": "SyncPlan", "dry_run": "bool"}, Ctx(val=(lambda x: x), ret=(lambda x: x), fall=(lambda env_: "printed")))
+        return "Definition g_print_plan (plan : sync_plan) (dry_run : bool) : list pline :=\n  %s." % text
+    out.append(("print_plan", "src/bin/copia/incremental.rs print_plan", None, t_print_plan))
+
+    def t_report():
+        src = read("src/bin/copia/incremental.rs")
+        params, ret, body = R.find_fn(src, "report", None)
+        if [n for n, _ in params] != ["start", "progress", "plan", "src_desc", "dst_desc", "verbose"]:
+            raise Unsupported("signature of report is %s" % params)
+        spec = dict(prints_ignored=True, print_only_lets=("elapsed", "tx"),
+                    calls={".failed": ("failed (* {0} *)", "u64")}, eq={"u64": "Z.eqb"},
+                    ok=lambda s_: "true", errs=[(r"failed to transfer", "false")])
+        fn = Fn(spec)
+        env = {"start": "Instant", "progress": "Progress", "plan": "SyncPlan", "src_desc": "str", "dst_desc": "str", "verbose": "bool"}
+        text = fn.block(body, env, Ctx(val=(lambda x: x), ret=(lambda x: x), fall=None))
+        return "Definition g_report (failed : Z) (verbose : bool) : bool :=\n  %s." % text
+    out.append(("report", "src/bin/copia/incremental.rs report", None, t_report))
+
     def t_run_remote():
         src = read("src/bin/copia/incremental.rs")
         params, ret, body = R.find_fn(src, "run_remote", None)
@@ -1926,6 +1960,7 @@ GROUPS = {
     "ArchiveSave": ("Model.ArchiveSys", "archivesys", ["archive_save"]),
     "OneWaySys": ("Model.OneWaySys", "onewaysys", ["tmp_path", "deliver_local", "deliver_pull"]),
     "OneWayRun": ("Model.Glob Model.Plan Model.OneWay", "onewayrun", ["run_local"]),
+    "OneWayPrint": ("Model.Glob Model.Plan Model.OneWay", "onewayprint", ["print_plan", "report"]),
     "RemoteRun": ("Model.Glob Model.Plan Model.OneWay", "remoterun", ["run_remote"]),
     "Archive": ("Model.Archive", "archive", ["archive_load"]),
     "Plan": ("Model.Glob Model.Plan", False, ["needs_transfer", "glob_match", "is_excluded", "build_plan"]),
@@ -2043,6 +2078,8 @@ def main():
                      "(* what run_remote does, in order *)\n"
                      "Inductive reff := ENoFiles | RPrintPlan (p : sync_plan) (dry : bool) | EUpToDate | RCreateDirs (d : rdir) (dirs : list (list Z))\n"
                      "  | RSpawn (d : rdir) (rel : list Z) (mtime : option Z) | RJoin | RDeletes (d : rdir) (dels : list (list Z)) | RReport.\n\n" + "\n".join(texts) + "End WithScans.\n")
+        elif digest == "onewayprint":
+            body += "\n(* one line of `sync --dry-run` on stdout *)\nInductive pline := PSend (p : list Z) | PDelete (p : list Z).\n\n" + "\n".join(texts)
         elif digest == "archivesys":
             body = (HEADER % (group, imports)) + "\nSection WithFs.\nVariable path_exists : apath -> bool.   (* path.exists() *)\n\n" + "\n".join(texts) + "End WithFs.\n"
         elif digest == "onewaysys":
